@@ -29,6 +29,12 @@ func TestMain(m *testing.M) {
 			"(client sits on its stream, dial-back hangs or takes seconds, slow dial data), against a concurrency limit of 1..4 combined with a second tight limit "+
 			"(dial-data window 0..2 / per-peer window / global window / all / none): requests of a peer are turned away at every stage of the limiter while others of its requests are in flight "+
 			"and more of its requests follow (labels inflight-rejection:*). "+
+			"TestDialBackSockets (real time, real loopback sockets, no bubble; few cases): the server's dialer host is the real swarm with the real TCP, QUIC and WebSocket transports; "+
+			"one request of 1..4 addresses drawn over dial-back address shapes (tcp, quic-v1, ws, wss, tls/ws, tls/sni/<name>/ws, shapes no transport speaks, malformed bytes) x "+
+			"IP (the observed one / a foreign one) x ports (443, 80 = the scheme defaults, others) x what the /sni name stands for (literal of another IP, DNS name resolving to another IP of the case / "+
+			"to the same IP / not at all; names resolve at an in-process DNS server) x 3 dial-data behaviours; TCP accept loops on every IP of the case (observed, foreign, the IPs names point to) x "+
+			"(TCP ports of the request + 80 + 443) and a recorder on the dialer's UDP sockets report every endpoint the dialer touches; each must be an (IP, port) named in the request, a foreign IP only after "+
+			"the dial data asked for was consumed, one endpoint per request at most (non-trivial there = the dialer opened at least one socket). "+
 			"Non-trivial = the server asked for dial data (a foreign-IP / DNS address was selected) or a request was rejected by a limit; "+
 			"distinct = distinct structured scenario (limits, CanDial mask, observed addresses, per request: arrival, class/transport vector, body kind, write timing, dial-data behaviour, dial-back script).",
 		"address classes are fixed by construction of the templates; TestTemplateClasses cross-checks them against manet.IsPublicAddr (trusted definition of 'public')",
@@ -36,6 +42,9 @@ func TestMain(m *testing.M) {
 		"'bytes of dial data' = Data bytes of well-formed DialDataResponse messages; bytes of anything else the client sends (garbage, misaligned streams after an unsolicited pre-send) are credited in full",
 		"a DNS dial-back address has no IP that could equal the observed one: dial data is required for it",
 		"the server's random pre-dial wait and requested byte count come from its own math/rand source; verdicts do not depend on them",
+		"TestDialBackSockets: IPv4 loopback only (each shard and case its own block of 127.0.0.0/8; the server runs with AllowPrivateAddrs, so 'public' is not exercised there); TCP connections are seen only at the "+
+			"listening endpoints (every IP of the case x requested ports + 80 + 443), UDP datagrams at the dialer's socket (all destinations); a socket that cannot be bound or a handler that needs more than "+
+			"40 s of real time makes the case inconclusive (label skipped:*), never a violation",
 	)
 	hx.Main(m)
 }
